@@ -173,10 +173,16 @@ def check_proofs(fam, tier):
     info = {"obligations": 0, "discharged": 0, "bad": [], "axioms_seen": [], "theorems": []}
     extra = list(getattr(fam, "extra_modules", []) or [])
     mods = ["CtrlVerif.Props." + prop] + extra
+    with leanproj.locked():
+        return _check_proofs_locked(fam, tier, prop, info, extra, mods)
+
+
+def _check_proofs_locked(fam, tier, prop, info, extra, mods):
     pre = getattr(fam, "pre_build", None)
     if pre is not None:
         # regenerate model files from /repo's source text (DESIGN §2.5); a failed translation is
-        # a broken proof obligation
+        # a broken proof obligation.  Regeneration, build and audit are one critical section
+        # (another check of the same property against another tree must not interleave).
         info["bad"].extend(pre())
     ok, log = leanproj.lake_build(mods + ["CtrlVerif.Driver.All"])
     names = leanproj.theorems_of(prop, extra)
